@@ -39,6 +39,9 @@ pub struct ChaosInput {
     /// malformed / unreadable workspace files present during the scan: (relative path, kind)
     #[serde(default)]
     pub bad_files: Vec<(String, String)>,
+    /// chaos-cli: additionally materialise a workspace with cyclic imports / dependencies generated from this seed
+    #[serde(default)]
+    pub cyclic_seed: Option<u64>,
     pub run_seed: u64,
     #[serde(default)]
     pub sandbox: Option<String>,
@@ -46,6 +49,103 @@ pub struct ChaosInput {
 
 pub struct Chaos {
     pub full_stack: bool,
+}
+
+/// Hostile workspaces through the real CLI in child processes ("analysis and the CLI never panic").
+pub struct ChaosCli;
+
+impl Scenario for ChaosCli {
+    fn name(&self) -> &'static str {
+        "chaos-cli"
+    }
+    fn rule(&self) -> &'static str {
+        "a workspace made of hostile documents (every generated version becomes a file: multi-byte layouts, unparsable texts, CRLF/CR/BOM,          empty) plus malformed/unreadable files and broken plugin metadata is handed to `fixtures list` and `fixtures unused` (text and json) in          seeded child processes; invariant: the child neither panics nor aborts (exit status 0 or 1) and prints valid JSON; non-trivial = at          least one file is unparsable or malformed; distinct = input hash"
+    }
+    fn runs(&self, tier: Tier) -> u64 {
+        match tier {
+            Tier::Quick => 300,
+            Tier::Thorough => 15_000,
+        }
+    }
+    fn shrink_paths(&self) -> Vec<&'static str> {
+        vec!["/docs", "/docs/*/1", "/bad_files"]
+    }
+    fn gen(&self, run_seed: u64, tier: Tier) -> Value {
+        let mut v = Chaos { full_stack: true }.gen(run_seed ^ 0xc11, tier);
+        if run_seed % 10 < 4 {
+            v["cyclic_seed"] = serde_json::json!(run_seed ^ 0xc7c1);
+        }
+        v
+    }
+    fn exec(&self, input: &Value) -> RunOut {
+        let mut out = RunOut::default();
+        let inp: ChaosInput = match serde_json::from_value(input.clone()) {
+            Ok(i) => i,
+            Err(e) => {
+                out.harness_error = Some(format!("bad input: {}", e));
+                return out;
+            }
+        };
+        let sb = Sandbox::acquire("c11c", inp.run_seed, inp.sandbox.as_deref().map(Path::new));
+        let root = sb.root().join("ws");
+        std::fs::create_dir_all(&root).unwrap();
+        out.fingerprint = fnv(&serde_json::to_string(&(&inp.docs, &inp.bad_files)).unwrap());
+        let mut k = 0;
+        for (file, versions) in &inp.docs {
+            for (vi, text) in versions.iter().enumerate() {
+                // every version becomes its own test file next to the original
+                let name = if vi == 0 { file.clone() } else { file.replace(".py", &format!("_v{}_test.py", vi)) };
+                let p = root.join(&name);
+                if let Some(d) = p.parent() {
+                    let _ = std::fs::create_dir_all(d);
+                }
+                let _ = std::fs::write(&p, text);
+                if !parses(text) {
+                    out.nontrivial = true;
+                }
+                k += 1;
+            }
+        }
+        for (path, kind) in &inp.bad_files {
+            write_bad(&root, path, kind);
+            out.count(&format!("fault.cli_meets_{}", kind.replace('-', "_")), 1);
+            out.nontrivial = true;
+        }
+        if let Some(cs) = inp.cyclic_seed {
+            let spec = super::scen_locks::cyclic_ws(&mut Rng::new(cs));
+            for f in &spec.files {
+                let p = root.join("cyc").join(&f.rel);
+                if let Some(d) = p.parent() {
+                    let _ = std::fs::create_dir_all(d);
+                }
+                let _ = std::fs::write(&p, super::pytext::render(&f.items).text);
+            }
+            out.count("fault.cli_meets_cyclic_imports_and_dependencies", 1);
+            out.nontrivial = true;
+        }
+        out.count("hostile_files", k);
+        let rootstr = root.to_string_lossy().to_string();
+        for argv in [vec!["fixtures", "list", rootstr.as_str()], vec!["fixtures", "unused", rootstr.as_str()], vec!["fixtures", "unused", rootstr.as_str(), "--format", "json"], vec!["fixtures", "list", rootstr.as_str(), "--only-unused"]] {
+            match super::scen_cli::run_child(&inp.sim, &argv) {
+                Ok((code, so, se)) => {
+                    out.count("child_processes", 1);
+                    out.state_hash = mix(out.state_hash, fnv(&so));
+                    if !(code == 0 || code == 1) || se.contains("panicked") || se.contains("CHILD-ABORT") {
+                        let class = if se.contains("panicked") || se.contains("Panic") { panic_class(se.lines().find(|l| l.contains("CHILD-ABORT") || l.contains("panicked")).unwrap_or("")) } else { "cli-abnormal-exit".to_string() };
+                        out.violate(&class, format!("`{}` exited with status {} on a hostile workspace; stderr: {}", argv[..2].join(" "), code, super::batch::clip(&se, 500)));
+                    }
+                    if argv.contains(&"json") && serde_json::from_str::<Value>(&so).is_err() {
+                        out.violate("cli-json-invalid", format!("json output does not parse: {:?}", super::batch::clip(&so, 300)));
+                    }
+                }
+                Err(e) => {
+                    out.harness_error = Some(e);
+                    return out;
+                }
+            }
+        }
+        out
+    }
 }
 
 fn panic_class(msg: &str) -> String {
@@ -162,6 +262,7 @@ impl Scenario for Chaos {
             cancel: self.full_stack && rng.chance(300),
             refresh_delay: if self.full_stack { *rng.pick(&[0i32, 2, 30, -3]) } else { 0 },
             bad_files,
+            cyclic_seed: None,
             run_seed,
             sandbox: None,
         })
